@@ -279,6 +279,28 @@ def hold_jobs(rng, tier, mk_terms, add):
         add(norm(p), "hold", hold_pos=rng.choice([0, 0, 1, c_ - 1, c_, c_ + 1, n_ - 1]))
 
 
+EAGER_SHAPES = ["fl", "mfl", "ol", "ofl", "lo", "lfm", "lfl", "lfo"]     # one chain per eager (materialising) site
+
+
+def eager_site_jobs(rng, tier, mk_terms, add):
+    """Chains through each of the eight eager sites, several schedules each: what the materialised
+    intermediate looks like (order, completeness) only shows when several workers share the first run."""
+    for sh in EAGER_SHAPES:
+        for rep in range(4 if tier == "quick" else 24):
+            src = rng.choice(("vec", "iterx", "iter"))
+            p = gen_prog(rng, src=src, shape=sh, n=rng.choice([13, 16, 24]), nt=rng.choice([2, 3, 4]),
+                         cs=rng.choice([("cs", 1), ("cs", 2), ("csmin", 1)]))
+            for o in p["ops"]:               # let (nearly) everything through, so that there is an order to get wrong
+                if o["k"] == "filter":
+                    o["t"] = [1 if rng.random() < 0.85 else 0 for _ in range(V)]
+                elif o["k"] == "fmap":
+                    o["t"] = [x if x >= 0 else rng.randrange(V) for x in o["t"]]
+                elif o["k"] == "flat":
+                    o["tt"] = [x if x else [rng.randrange(V)] for x in o["tt"]]
+            p["term"] = mk_terms[rep % len(mk_terms)](rng, src, sh)
+            add(norm(p), "rand", sticky=0.0)
+
+
 def big_jobs(rng, tier, mk_terms, add):
     """Programs over 7*10^4..3*10^5 elements (digests instead of sequences): thresholds such as
     2^16 / 2^17 elements and the growth of SplitVec fragments are only crossed here. Systematic
@@ -392,6 +414,7 @@ def jobs_for(prop, tier, seed):
         jobs.append(mk_job(len(jobs) + 1, p, mode or mode_mix(rng), rng, **kw))
 
     if prop == "C01":
+        eager_site_jobs(rng, tier, [lambda r, s_, sh: collect_term(r, s_, sh)], add)
         hold_jobs(rng, tier, [lambda r, s_, sh: collect_term(r, s_, sh)], add)
         slow_source_jobs(rng, tier, [lambda r, s_, sh: collect_term(r, s_, sh)], add)
         lag_jobs(rng, tier, [lambda r, s_, sh: collect_term(r, s_, sh)], add)
@@ -427,6 +450,7 @@ def jobs_for(prop, tier, seed):
         for _ in range(n):
             add(with_term(rng, lambda r, s, sh: {"k": r.choice(["count", "for_each"])}))
     elif prop == "C05":
+        eager_site_jobs(rng, tier, [lambda r, s_, sh: any_term(r, s_, sh)], add)
         hold_jobs(rng, tier, [lambda r, s_, sh: any_term(r, s_, sh)], add)
         slow_source_jobs(rng, tier, [lambda r, s_, sh: any_term(r, s_, sh)], add)
         lag_jobs(rng, tier, [lambda r, s_, sh: any_term(r, s_, sh)], add)
@@ -459,6 +483,7 @@ def jobs_for(prop, tier, seed):
             p["term"] = t
             add(norm(p))
     elif prop == "C07":
+        eager_site_jobs(rng, tier, [lambda r, s_, sh: {"k": "collect_x"}], add)
         hold_jobs(rng, tier, [lambda r, s_, sh: {"k": "collect_x"}], add)
         slow_source_jobs(rng, tier, [lambda r, s_, sh: {"k": "collect_x"}], add)
         lag_jobs(rng, tier, [lambda r, s_, sh: {"k": "collect_x"}], add)
